@@ -532,7 +532,8 @@ theorem inv_globalFire (c : Cfg) (ar aq : Nat) (s : S) (h : Inv c ar aq s) : Inv
 /-- an accepted asynchronous `TerminateStream` on a parked worker -/
 theorem inv_terminate (c : Cfg) (ar aq : Nat) (s : S) (code : Nat) (h : Inv c ar aq s) :
     Inv c ar aq (terminateL c s code) := by
-  unfold terminateL
+  rw [terminateL_eq]
+  unfold terminateAcc
   split
   · exact h
   split
@@ -620,5 +621,15 @@ theorem inv_async (c : Cfg) (ar aq : Nat) (s : S) (l : Label) (hl : l ≠ .work)
   | downReset r => exact inv_downReset c ar aq s r h
   | connClose => exact inv_connClose c ar aq s h
   | terminate code => exact inv_terminate c ar aq s code h
+  | terminateStale g code =>
+    simp only [step]
+    rw [terminateStale_eq]
+    split
+    · exact inv_terminate c ar aq s code h
+    · exact h
+  | terminateRaced code k d t =>
+    simp only [step]
+    rw [terminateRaced_eq]
+    exact inv_terminate c ar aq s code h
 
 end MosnVerif.Model.Downstream
